@@ -310,6 +310,16 @@ structure Cfg.Ok (c : Cfg) : Prop where
   m1 : 1 ≤ c.m
   m256 : c.m ≤ 256
 
+/-- A party whose accept goroutine does not run holds nothing in `acceptConn`. -/
+theorem Inv.infl_none {c : Cfg} {s : State} (h : Inv c s) {j : Nat} (ha : s.acc j = false) :
+    s.infl j = .none := by
+  have := h.infl j
+  unfold InflInv at this
+  cases hi : s.infl j with
+  | none => rfl
+  | taken i k => rw [hi] at this; simp [ha] at this
+  | stored i k => rw [hi] at this; simp [ha] at this
+
 theorem Inv.acc_none {c : Cfg} {s : State} (h : Inv c s) {i j k : Nat} (hd : Dials i j)
     (hn : s.conn i j k = none) : s.conn j i k = none := by
   cases hc : s.conn j i k with
@@ -334,7 +344,7 @@ theorem Inv.past0 {c : Cfg} {s : State} (h : Inv c s) (hc : c.Ok) {i : Nat}
     | _ => simp [infoSentTo]
   have h0 := hL.waited 0 hr (by omega)
   rw [(hL.started hne).2 0 (by omega)] at h0
-  exact missing_zero s 0 c.n 0 h0 q hq hqn
+  exact missing_zero s 0 c.n 0 (by omega) q hq hqn
 
 theorem Inv.peer_started {c : Cfg} {s : State} (h : Inv c s) {q : Nat} (hq : 0 < q) (hqn : q < c.n)
     (hs : (s.conn 0 q 0).isSome) : s.phase q ≠ .init ∧ s.phase q ≠ .joined := by
@@ -354,7 +364,7 @@ theorem Inv.leader_all {c : Cfg} {s : State} (h : Inv c s) (hc : c.Ok) (h0 : s.n
   have hm1 := hc.m1
   have hn2 := hc.n2
   have hL := h.leader
-  have hm : missing s 0 c.n 0 = 0 := by rw [← (hL.started hne).2 0 (by omega)]; exact h0
+  have hm : missing s 0 c.n 0 = 0 := by have := (hL.started hne).2 0 (by omega); omega
   have hall : ∀ q, 0 < q → q < c.n → (s.conn 0 q 0).isSome := missing_zero s 0 c.n 0 hm
   refine ⟨?_, ?_, hall⟩
   · intro x
